@@ -1274,6 +1274,45 @@ def probe_vmtuple(ctx):
                  {'tuple_after': [1, 2, 3], 'hashes': 'equal'})
 
 
+def probe_vmtuple_parse(ctx):
+    """every VmStack.deserialize builds its own tuples: parsing stacks that hold tuples of length 0, 1, 2, 3, 5 (nested too),
+    several times and interleaved, always gives the stored values, and a tuple handed out earlier never changes afterwards"""
+    from pytoniq_core.tlb.vm_stack import VmStack, VmTuple
+    ctx.case(('probe-vmtuple-parse',))
+
+    def show(v):
+        if isinstance(v, VmTuple):
+            return [show(x) for x in v.list] if hasattr(v, 'list') else repr(v)
+        if isinstance(v, (list, tuple)):
+            return [show(x) for x in v]
+        return v if isinstance(v, int) or v is None else O.canon(v)
+    shapes = [[], [7], [7, 8], [1, 2, 3], [1, 2, 3, 4, 5], [[], [9]], [[4], [5, [6]]], [None], [[[]]]]
+
+    def mk(x):
+        return VmTuple([mk(y) for y in x]) if isinstance(x, list) else x
+    stacks = [([mk(sh)], [sh]) for sh in shapes] + [([mk([1]), mk([2]), mk([])], [[1], [2], []])]
+    cells = [(VmStack.serialize(vs), want) for vs, want in stacks]
+    handed = []
+    inp = {'probe': 'vmtuple-parse', 'call': 'VmStack.deserialize on stacks holding tuples of lengths 0,1,2,3,5 and nested ones, three rounds'}
+    for rnd in range(3):
+        order = list(range(len(cells)))
+        if rnd == 1:
+            order.reverse()
+        for k in order:
+            c, want = cells[k]
+            got = VmStack.deserialize(c.begin_parse())
+            if show(got) != want:
+                ctx.fail('order-dependence:vmtuple-parse', 'VmStack.deserialize of a stack holding tuples gives another result after other tuple '
+                         'stacks were parsed in this process', dict(inp, shape=want, round=rnd), show(got), want)
+                return
+            handed.append((got, want))
+            for old, w in handed:
+                if show(old) != w:
+                    ctx.fail('aliasing:vmtuple-parse', 'a tuple returned by an earlier VmStack.deserialize changed when another stack was parsed',
+                             dict(inp, shape=w, round=rnd), show(old), w)
+                    return
+
+
 def probe_tlb(ctx):
     from pytoniq_core.tlb.account import StateInit, TickTock
     from pytoniq_core import begin_cell
@@ -1296,7 +1335,55 @@ def probe_tlb(ctx):
         ctx.fail('probe:tlb-deserialize-source', 'deserialising changed the source cell', inp, O.snapshot(c1), before)
 
 
-PROBES = {'ctor-input': probe_ctor_input, 'order': probe_order, 'to_boc-options': probe_to_boc, 'hashmap': probe_hashmap,
+def probe_address(ctx):
+    """values returned by load_address / preload_address are fresh snapshots: parsing the same account in another form
+    (with an anycast prefix, with another prefix, without) neither changes results handed out before nor later results"""
+    from pytoniq_core import begin_cell
+    from pytoniq_core.boc.address import Address
+    ctx.case(('probe-address',))
+    rng = ctx.rng
+    for trial in range(6):
+        wc, hp = rng.choice([0, -1, 5]), rng.randbytes(32)
+        plain = Address((wc, hp))
+        forms = [None, (rng.randrange(1, 31), 0), (5, 3), (30, (1 << 30) - 1)]
+        rng.shuffle(forms)
+        cells = []
+        for f in forms:
+            a = Address((wc, hp))
+            if f:
+                a.set_anycast(f[0], f[1] % (1 << f[0]))
+            cells.append((f and (f[0], f[1] % (1 << f[0])), begin_cell().store_address(a).store_uint(5, 3).end_cell()))
+        inp = {'probe': 'address', 'wc': wc, 'hash': hp.hex(), 'forms': [list(f) if f else None for f, _ in cells]}
+
+        def show(a):
+            return (a.wc, a.hash_part.hex(), (a.anycast.depth, a.anycast.rewrite_pfx) if a.anycast is not None else None)
+        handed = []
+        for rnd in range(2):
+            for f, c in cells:
+                for how in ('load', 'preload'):
+                    s_ = c.begin_parse()
+                    a = s_.load_address() if how == 'load' else s_.preload_address()
+                    want = (wc, hp.hex(), f)
+                    if show(a) != want:
+                        ctx.fail('order-dependence:address', f'{how}_address returns another value after the same account was parsed in another form',
+                                 inp, show(a), want)
+                        return
+                    back = begin_cell().store_address(a).store_uint(5, 3).end_cell()
+                    if back.hash != c.hash:
+                        ctx.fail('order-dependence:address', 'store_address(load_address(cell)) no longer reproduces the cell', inp, _h(back), _h(c))
+                        return
+                    handed.append((a, want))
+                    for old_a, old_want in handed:
+                        if show(old_a) != old_want:
+                            ctx.fail('aliasing:address', 'an Address returned by an earlier load_address changed when the same account was parsed again',
+                                     inp, show(old_a), old_want)
+                            return
+        if show(plain) != (wc, hp.hex(), None):
+            ctx.fail('aliasing:address', "the caller's own Address object was changed by parsing", inp, show(plain), (wc, hp.hex(), None))
+            return
+
+
+PROBES = {'address': probe_address, 'vmtuple-parse': probe_vmtuple_parse, 'ctor-input': probe_ctor_input, 'order': probe_order, 'to_boc-options': probe_to_boc, 'hashmap': probe_hashmap,
           'vmstack': probe_vmstack, 'vmtuple': probe_vmtuple, 'tlb': probe_tlb}
 
 
